@@ -833,6 +833,7 @@ func (e *schedExec) onEvent(o *Out, tid int, th *schedThread, prev, label string
 		for t, rev := range th.otherRev {
 			if t < len(th.specAtLoad) && (rev != th.specAtLoad[t].rev || th.otherCnt[t] != th.specAtLoad[t].cnt) {
 				o.Fail("C05", "writer-reads-other-table-wrongly", nil, fmt.Sprintf("thread %d reads table %d (not held) through its write transaction as %d @%d, the committed state when it loaded the root was %d @%d", tid, t, th.otherCnt[t], rev, th.specAtLoad[t].cnt, th.specAtLoad[t].rev))
+				o.Fail("C02", "write-txn-view-mixes-two-committed-states", nil, fmt.Sprintf("thread %d reads table %d (not held) through its write transaction as %d @%d, the committed state when it loaded the root was %d @%d", tid, t, th.otherCnt[t], rev, th.specAtLoad[t].cnt, th.specAtLoad[t].rev))
 			}
 		}
 		// the writer saw every write committed to its tables earlier
